@@ -225,11 +225,11 @@ METHODS12 = ["entryGuard", "enter", "reenter", "preUpdate", "update", "postUpdat
 
 FLOORS = {
     "C01": ["quiescent_observations", "api_calls/update", "callback_events/enter", "callback_events/exit", "callback_events/reenter"],
-    "C02": ["processing_calls_with_redirect", "round_outcomes/survived"],
+    "C02": ["processing_calls_with_redirect", "round_outcomes/survived", "move_constructions"],
     "C03": ["processing_calls_with_veto", "processing_calls_with_redirect", "round_outcomes/vetoed"],
-    "C05": ["api_calls/update", "api_calls/react", "api_calls/query"],
+    "C05": ["api_calls/update", "api_calls/react", "api_calls/query", "snapshot_copies_cycled"],
     "C06": ["guard_views_checked", "in_callback_assertion_sets", "setContext_calls"],
-    "C07": ["payload_seen_in_enter", "no_payload_seen_in_enter"],
+    "C07": ["payload_seen_in_enter", "no_payload_seen_in_enter", "move_constructions"],
     "C08": ["fires_checked", "converse_fire_obligations", "plan_steps_with_fires"],
     "C09": ["outcomes/planFailed", "outcomes/planSucceeded", "converse_planFailed_obligations_met"],
     "C10": ["plan_appends_at_capacity", "plan_iterator_removes", "plan_leak_probes", "plan_clears", "plan_first_last_checked"],
